@@ -28,7 +28,7 @@ import (
 	"verif/vnet"
 )
 
-var c09Opts = core.Opts{ID: "C09", Quick: 120, Thorough: 6000}
+var c09Opts = core.Opts{ID: "C09", Quick: 400, Thorough: 8000}
 
 func c09SimplePaths(t meshTopo, from int, limit int) int {
 	adj := t.adj()
